@@ -4,7 +4,7 @@
 Require Extraction.
 Require Import ExtrOcamlBasic.
 From MOC.Base Require Import RangeSet.
-From MOC.Model Require Import Qty Ops1D Query Expr Build Repr Serial ST STSerial TextValid Store MocSet Freq SetQuery Neigh Valued ValuedCheck SetEffects Mom CellsSM Sweep2D Merge2D STBuilder SweepLine AsciiCodec AsciiMoc FitsCodec MocSetBytes.
+From MOC.Model Require Import Qty Ops1D Query Expr Build Repr Serial ST STSerial TextValid Store MocSet Freq SetQuery Neigh Valued ValuedCheck SetEffects Mom CellsSM Sweep2D Merge2D STBuilder SweepLine AsciiCodec AsciiMoc FitsCodec MocSetBytes JsonCodec.
 Extraction Language OCaml.
 Extraction "moc_model.ml"
   RangeSet.covb RangeSet.canonb RangeSet.canon_of
@@ -37,4 +37,5 @@ Extraction "moc_model.ml"
   AsciiCodec.to_ascii AsciiCodec.from_ascii AsciiCodec.isort_e AsciiCodec.st_to_ascii AsciiCodec.st_from_ascii AsciiCodec.to_ascii_stream AsciiCodec.from_ascii_stream
   AsciiMoc.elems_of_cells AsciiMoc.ranges_of_elems
   FitsCodec.fits_write FitsCodec.fits_read FitsCodec.fits_write_st FitsCodec.fits_write_nuniq FitsCodec.mom_read FitsCodec.sky_read
-  MocSetBytes.file_bytes MocSetBytes.decode_file MocSetBytes.append_steps MocSetBytes.purge_tmp_files MocSetBytes.kept_of.
+  MocSetBytes.file_bytes MocSetBytes.decode_file MocSetBytes.append_steps MocSetBytes.purge_tmp_files MocSetBytes.kept_of
+  JsonCodec.to_json JsonCodec.st_to_json.
